@@ -4246,6 +4246,178 @@ def k_loop_scopes(E, tier):
     return rec
 
 
+def k_callable_scopes(E, tier):
+    """C18 (bodies see their definition site, not the call site): a user-defined function (Closure::eval_value)
+    and a user-defined mixin (MixinDecl::get, Sass arm) bind their arguments in a new scope whose parent is
+    the scope the callable was *defined* in (only the selector context comes from the call site), the
+    arguments of a mixin call are evaluated in the *calling* scope, the body evaluated is the callable's own
+    body in the scope that holds the bound arguments, and a function without @return yields null."""
+    decls = E.load_enum("sass/mixin.rs", "MixinDecl")
+    # --- functions
+    f = E.find(name_re=r"^callable::<impl at .*>::eval_value$")
+    rec = Rec("Closure::eval_value and MixinDecl::get (Sass arm)", f, E)
+    ctx = E.ctx()
+    clos = sym.Opaque("Closure", "closure", ctx)
+    call = sym.Opaque("Call", "call", ctx)
+    argscope = sym.Opaque("ScopeRef", "argument-scope", ctx)
+    bound = sym.Opaque("ScopeRef", "scope-with-bound-arguments", ctx)
+
+    def full(ex, st, x):
+        while isinstance(x, sym.Ref):
+            x = ex.deref(st, x)
+        return x
+
+    def common(ctx, argscope, bound):
+        def m_clone(ex, st, c, a, d):
+            return full(ex, st, a[0])
+
+        def m_deref(ex, st, c, a, d):
+            return sym.Ref("val", full(ex, st, a[0]))
+
+        def m_get_sel(ex, st, c, a, d):
+            sc = full(ex, st, a[0])
+            o = sym.Opaque("SelectorCtx", "selectors-of(%s)" % getattr(sc, "name", "?"), ctx)
+            e = sym.Event("get_selectors", [sc], o, len(st.pc))
+            st.events.append(e)
+            return sym.Ref("val", o)
+
+        def m_sub_sel(ex, st, c, a, d):
+            e = sym.Event("sub_selectors", a, argscope, len(st.pc))
+            e.rargs = [full(ex, st, x) for x in a]
+            st.events.append(e)
+            return argscope
+
+        def m_eval_args(ex, st, c, a, d):
+            ok, err = st.fork(), st.fork()
+            e = sym.Event("eval_args", a, bound, len(st.pc))
+            e.rargs = [full(ex, st, x) for x in a]
+            ok.events.append(e)
+            return [(ok, sym.Agg(d, "Ok", {"0": bound}, 0)), (err, sym.Agg(d, "Err", {"0": sym.Opaque("CallError", "args-error", ctx)}, 1))]
+
+        return [(r"^<(ScopeRef|SelectorCtx) as Clone>::clone$", m_clone), (r"^<ScopeRef as Deref>::deref$", m_deref),
+                (r"^variablescope::Scope::get_selectors$", m_get_sel), (r"^ScopeRef::sub_selectors$", m_sub_sel), (r"^Closure::eval_args$", m_eval_args)]
+
+    def m_eval_body(ex, st, c, a, d):
+        out = []
+        for kind, val in (("err", sym.Agg(d, "Err", {"0": sym.Opaque("Error", "body-error", ctx)}, 1)),
+                          ("none", sym.Agg(d, "Ok", {"0": sym.Agg("Option", "None", {}, 0)}, 0)),
+                          ("some", sym.Agg(d, "Ok", {"0": sym.Agg("Option", "Some", {"0": sym.Opaque("css::value::Value", "returned", ctx)}, 1)}, 0))):
+            s2 = st.fork()
+            e = sym.Event("eval_body", a, kind, len(st.pc))
+            e.rargs = [full(ex, st, x) for x in a]
+            s2.events.append(e)
+            out.append((s2, val))
+        return out
+
+    def m_unwrap_or(ex, st, c, a, d):
+        x = a[0]
+        if isinstance(x, sym.Agg) and x.variant == "Some":
+            return x.fields["0"]
+        if isinstance(x, sym.Agg) and x.variant == "None":
+            return a[1]
+        return None
+
+    models = common(ctx, argscope, bound) + [(r"^ScopeRef::eval_body$", m_eval_body), (r"^Option::<css::value::Value>::unwrap_or$", m_unwrap_or)] + _result_models() + BASE_MODELS
+    ex = sym.Executor(ctx, models=models, feasibility=E.feasibility(ctx))
+    paths = [p for p in ex.run(f, [sym.Ref("val", clos), call]) if p.status == "return"]
+    rec.paths = len(paths)
+    defscope = clos.children.get("scope") or clos.children.get("0")
+    seen = set()
+    for i, p in enumerate(paths):
+        ss = [e for e in p.events if e.callee == "sub_selectors"]
+        ea = [e for e in p.events if e.callee == "eval_args"]
+        eb = [e for e in p.events if e.callee == "eval_body"]
+        gs = [e for e in p.events if e.callee == "get_selectors"]
+        if len(ss) != 1:
+            rec.add("function path %d: one argument scope is created (shape not recognised)" % i, {"verdict": "inconclusive", "per_solver": {}, "time_s": 0})
+            continue
+        parent = ss[0].rargs[0]
+        callscope = call.children.get("scope") or call.children.get("1")
+        par_ok = isinstance(parent, sym.Opaque) and parent.name.startswith("closure") and parent is not callscope
+        sel_ok = len(gs) == 1 and isinstance(gs[0].args[0], sym.Opaque) and gs[0].args[0].name.startswith("call") and ss[0].rargs[1] is gs[0].result
+        rec.add("function path %d: the argument scope is a child of the closure's own (definition-site) scope; only the selector context is taken from the calling scope" % i,
+                {"verdict": "holds" if par_ok and sel_ok else "violated", "per_solver": {"structural": "parent=%s selectors=%s" % (getattr(parent, "name", "?"), sel_ok)}, "time_s": 0})
+        if ea:
+            good = ea[0].rargs[0] is clos and ea[0].rargs[1] is argscope and isinstance(ea[0].rargs[2], sym.Opaque) and ea[0].rargs[2].name.startswith("call")
+            rec.add("function path %d: the call's arguments are bound in that scope" % i, {"verdict": "holds" if good else "violated", "per_solver": {"structural": "event identity"}, "time_s": 0})
+        if eb:
+            body_of_closure = isinstance(eb[0].rargs[1], sym.Opaque) and eb[0].rargs[1].name.startswith("closure")
+            good = eb[0].rargs[0] is bound and body_of_closure
+            rec.add("function path %d: the closure's own body is evaluated in the scope holding the bound arguments" % i,
+                    {"verdict": "holds" if good else "violated", "per_solver": {"structural": "event identity"}, "time_s": 0})
+            ret = p.ret
+            if eb[0].result == "none":
+                good = isinstance(ret, sym.Agg) and ret.variant == "Ok" and isinstance(ret.fields["0"], sym.Agg) and ret.fields["0"].variant == "Null"
+                rec.add("function path %d: a body that reaches no @return yields null" % i, {"verdict": "holds" if good else "violated", "per_solver": {"structural": repr(ret)[:60]}, "time_s": 0})
+                seen.add("null")
+            elif eb[0].result == "some":
+                good = isinstance(ret, sym.Agg) and ret.variant == "Ok" and isinstance(ret.fields["0"], sym.Opaque) and ret.fields["0"].name == "returned"
+                rec.add("function path %d: the value of the @return reached is the result" % i, {"verdict": "holds" if good else "violated", "per_solver": {"structural": repr(ret)[:60]}, "time_s": 0})
+                seen.add("value")
+            else:
+                good = isinstance(ret, sym.Agg) and ret.variant == "Err"
+                rec.add("function path %d: an error in the body is an error of the call" % i, {"verdict": "holds" if good else "violated", "per_solver": {"structural": repr(ret)[:60]}, "time_s": 0})
+                seen.add("error")
+    if not {"null", "value", "error"} <= seen:
+        rec.add("function: all body outcomes explored (%s)" % sorted(seen), {"verdict": "inconclusive", "per_solver": {}, "time_s": 0})
+    # --- mixins
+    g = E.find(name_re=r"^mixin::<impl at .*>::get$", contains=["SourceKind::load_css"])
+    ctx2 = E.ctx()
+    decl = sym.Opaque("MixinDecl", "decl", ctx2)
+    ctx2.assumptions.append("(= %s %s)" % (decl.discriminant().term, bvlit(decls.index("Sass"), 64)))
+    callscope2 = sym.Opaque("ScopeRef", "calling-scope", ctx2)
+    argscope2 = sym.Opaque("ScopeRef", "argument-scope", ctx2)
+    bound2 = sym.Opaque("ScopeRef", "scope-with-bound-arguments", ctx2)
+    cargs = sym.Opaque("&CallArgs", "call_args", ctx2)
+
+    def m_evaluate(ex_, st, c, a, d):
+        ok, err = st.fork(), st.fork()
+        o = sym.Opaque("Call", "evaluated-call", ctx2)
+        e = sym.Event("evaluate_args", a, o, len(st.pc))
+        e.rargs = [full(ex_, st, x) for x in a]
+        ok.events.append(e)
+        return [(ok, sym.Agg(d, "Ok", {"0": o}, 0)), (err, sym.Agg(d, "Err", {"0": sym.Opaque("CallError", "e", ctx2)}, 1))]
+
+    models2 = common(ctx2, argscope2, bound2) + [(r"^sass::call_args::CallArgs::evaluate$", m_evaluate)] + BASE_MODELS
+    ex2 = sym.Executor(ctx2, models=models2, feasibility=E.feasibility(ctx2), max_paths=4000)
+    p2 = [p for p in ex2.run(g, [decl, callscope2, cargs, sym.Opaque("&SourcePos", "pos", ctx2), sym.Opaque("&mut Context", "fctx", ctx2)]) if p.status == "return"]
+    rec.paths += len(p2)
+    okm = [p for p in p2 if isinstance(p.ret, sym.Agg) and p.ret.variant == "Ok"]
+    if not okm:
+        rec.add("mixin: an Ok path exists (shape not recognised)", {"verdict": "inconclusive", "per_solver": {}, "time_s": 0})
+    for i, p in enumerate(okm):
+        ss = [e for e in p.events if e.callee == "sub_selectors"]
+        ea = [e for e in p.events if e.callee == "eval_args"]
+        ev_ = [e for e in p.events if e.callee == "evaluate_args"]
+        gs = [e for e in p.events if e.callee == "get_selectors"]
+        if len(ss) != 1 or len(ea) != 1 or len(ev_) != 1:
+            rec.add("mixin path %d: one argument scope, one evaluation of the call arguments, one binding (shape not recognised)" % i, {"verdict": "inconclusive", "per_solver": {}, "time_s": 0})
+            continue
+        parent = ss[0].rargs[0]
+        par_ok = isinstance(parent, sym.Opaque) and parent.name.startswith("decl") and parent is not callscope2
+        sel_ok = len(gs) >= 1 and gs[0].args[0] is callscope2 and ss[0].rargs[1] is gs[0].result
+        args_ok = ev_[0].rargs[0] is cargs and ev_[0].rargs[1] is callscope2
+        bind_ok = ea[0].rargs[1] is argscope2 and isinstance(ea[0].rargs[2], sym.Opaque) and ea[0].rargs[2].name.startswith("evaluated-call")
+        mix = p.ret.fields["0"]
+        scope_f = mix.fields.get("scope") if isinstance(mix, sym.Agg) else None
+        body_f = mix.fields.get("body") if isinstance(mix, sym.Agg) else None
+        body_ok = scope_f is bound2 and _payload_contains_name(body_f, "decl")
+        rec.add("mixin path %d: arguments are evaluated in the calling scope and bound in a child of the mixin's definition-site scope (selector context from the call site); "
+                "the Mixin returned carries that scope and the declaration's own body" % i,
+                {"verdict": "holds" if par_ok and sel_ok and args_ok and bind_ok and body_ok else "violated",
+                 "per_solver": {"structural": "parent=%s sel=%s args=%s bind=%s body=%s" % (par_ok, sel_ok, args_ok, bind_ok, body_ok)}, "time_s": 0})
+    return rec
+
+
+def _payload_contains_name(v, prefix, depth=0):
+    """does the aggregate carry an opaque value whose name starts with `prefix` (i.e. derived from that object)?"""
+    if isinstance(v, sym.Opaque):
+        return v.name.startswith(prefix)
+    if isinstance(v, sym.Agg) and depth < 6:
+        return any(_payload_contains_name(x, prefix, depth + 1) for x in v.fields.values())
+    return False
+
+
 def k_value_eq_symmetric(E, tier):
     """C12: css::Value::eq is symmetric as a function of the two values' kinds and of the (symmetric)
     comparisons of their parts: eq(a,b) and eq(b,a) are executed symbolically and must be the same
